@@ -9,6 +9,7 @@ mod params;
 mod limits;
 mod snap;
 mod symrec;
+mod syntax;
 mod tp;
 mod util;
 mod ver;
@@ -33,6 +34,7 @@ fn main() {
         "tp-replay" => tp::cmd_replay(&args[2], &args[3]),
         "ver-replay" => ver::cmd_replay(&args[2], &args[3]),
         "params-replay" => params::cmd_replay(&args[2], &args[3]),
+        "syntax-replay" => syntax::cmd_replay(&args[2], &args[3]),
         "auth-replay" => auth::cmd_replay(&args[2], &args[3]),
         "dlog-replay" => dlog::cmd_replay(&args[2], &args[3]),
         "chain-honest" => chain::cmd_honest(&args[2], &args[3]),
